@@ -404,6 +404,39 @@ def unplant(module, saved):
         setattr(module, k, v)
 
 
+# ---- two independent computations at once ---------------------------------------------------------
+def run_pair(choices, thunks, trace_lines_in, horizon=None):
+    """Run thunks[0] and thunks[1] as two logical threads (scheduling points: every source line of the file whose name ends
+    with trace_lines_in), following `choices`.  -> (sched, [result or None, ...], exception of the main body, alive tids)"""
+    s = Sched(choices, trace_lines_in=trace_lines_in)
+    if horizon:
+        s.HORIZON = horizon
+    got = [None] * len(thunks)
+
+    def mk(i):
+        def f():
+            got[i] = thunks[i]()
+        return f
+
+    def body():
+        ts = [s.spawn(mk(i), "t%d" % i) for i in range(len(thunks))]
+        for t in ts:
+            s.start(t)
+        for t in ts:
+            s.join(t)
+
+    exc, alive = s.run_main(body)
+    return s, got, exc, alive
+
+
+def root_alternatives(run_one):
+    """the default schedule, and every prefix that deviates from it once (for dealing a schedule tree to workers)"""
+    points, vs = run_one([])
+    chosen = [p.chosen for p in points]
+    alts = [chosen[:i] + [alt] for i in range(len(points)) for alt in range(1, len(points[i].enabled))]
+    return {"execs": 1, "by_preemptions": {0: 1}, "max_points": len(points), "capped": False}, vs, alts
+
+
 # ---- exploration --------------------------------------------------------------------------------
 def explore(run_one, bound, max_execs=None, first_alts=None):
     """Depth-first enumeration of all schedules with at most `bound` preemptions.
